@@ -93,6 +93,56 @@ Definition collect (kvs : list (bytes * bytes)) : pmap :=
 Definition collect_decoded (kvs : list (bytes * bytes)) : pmap :=
   fold_left (fun m kv => insert_decoded m (fst kv) (snd kv)) kvs [].
 
+(** ParamsMap::replace: decodes the value; an existing entry keeps its place and loses its
+    earlier values *)
+Fixpoint replace_decoded (m : pmap) (k v : bytes) : pmap :=
+  match m with
+  | [] => [(k, [v])]
+  | (k', vs) :: m' =>
+      if bytes_eqb k' k then (k', [v]) :: m' else (k', vs) :: replace_decoded m' k v
+  end.
+Definition replace (m : pmap) (k v : bytes) : pmap := replace_decoded m k (unescape v).
+
+(** the reading API.  get_all: the values of the first entry with that key;
+    get / get_str: [find_map] over the entries, the last value of the first entry with that
+    key that has one *)
+Fixpoint get_all (m : pmap) (k : bytes) : option (list bytes) :=
+  match m with
+  | [] => None
+  | (k', vs) :: m' => if bytes_eqb k' k then Some vs else get_all m' k
+  end.
+Definition last_opt (vs : list bytes) : option bytes :=
+  match rev vs with [] => None | v :: _ => Some v end.
+Fixpoint get_str (m : pmap) (k : bytes) : option bytes :=
+  match m with
+  | [] => None
+  | (k', vs) :: m' =>
+      if bytes_eqb k' k
+      then match last_opt vs with Some v => Some v | None => get_str m' k end
+      else get_str m' k
+  end.
+
+(** ParamsMap::remove: [Vec::swap_remove] of the first entry with that key (the last entry
+    takes its place) *)
+Fixpoint find_key (m : pmap) (k : bytes) (i : nat) : option (nat * list bytes) :=
+  match m with
+  | [] => None
+  | (k', vs) :: m' => if bytes_eqb k' k then Some (i, vs) else find_key m' k (S i)
+  end.
+Definition swap_remove {A} (l : list A) (i : nat) : list A :=
+  match rev l with
+  | [] => []
+  | lastx :: _ =>
+      let body := removelast l in
+      if Nat.eqb i (length body) then body
+      else firstn i body ++ lastx :: skipn (S i) body
+  end.
+Definition remove (m : pmap) (k : bytes) : pmap * option (list bytes) :=
+  match find_key m k 0 with
+  | None => (m, None)
+  | Some (i, vs) => (swap_remove m i, Some vs)
+  end.
+
 (** IntoIterator for ParamsMap *)
 Definition pairs_of (m : pmap) : list (bytes * bytes) :=
   flat_map (fun kv => map (fun v => (fst kv, v)) (snd kv)) m.
@@ -139,3 +189,16 @@ Definition route_params (raw : list (bytes * bytes)) : pmap := collect raw.
     ancestors and of the route itself (after the fix: without decoding again) *)
 Definition params_including_parents (levels : list (list (bytes * bytes))) : pmap :=
   collect_decoded (flat_map (fun raw => pairs_of (route_params raw)) levels).
+
+(** the nested router in general: [own] lists, outermost route first, the raw (name, segment)
+    pairs each matched route captured itself.  NestedMatch::to_params of a route also carries
+    the params of all its descendants (matching/nested/mod.rs: params.extend(inner_params));
+    the map a component at depth i reads is params_including_parents of the routes 0..i *)
+Fixpoint to_params_levels (own : list (list (bytes * bytes))) : list (list (bytes * bytes)) :=
+  match own with
+  | [] => []
+  | o :: rest => (o ++ concat rest) :: to_params_levels rest
+  end.
+Definition level_maps (own : list (list (bytes * bytes))) : list pmap :=
+  let raw := to_params_levels own in
+  map (fun i => params_including_parents (firstn (S i) raw)) (seq 0 (length raw)).
